@@ -195,9 +195,15 @@ def build_driver():
     """extract the executable model and build the OCaml driver"""
     odir = os.path.join(CACHE, "ocaml")
     os.makedirs(odir, exist_ok=True)
+    global MODEL_AVAILABLE
     ok, out = coq_make(["Extract/Extract.vo"])
     if not ok:
-        raise InfraError("extraction failed:\n" + out[-4000:])
+        # the model no longer compiles against what the translator read from the source (or a proof-free model file
+        # broke): that is a broken tie, reported by Check.proof(); the implementation-side checks still run and look
+        # for a concrete failing input, the model side answers MODEL-UNAVAILABLE
+        MODEL_AVAILABLE = False
+        sys.stderr.write("[build] extraction failed: the model side is unavailable for this run\n")
+        return None
     # Extract.v writes model.ml / model.mli into coq/ (cwd of coqc)
     for f in ("model.ml", "model.mli"):
         src = os.path.join(COQ, f)
@@ -320,7 +326,12 @@ def impl(lines, **kw):
     return run_batch([HARNESS_BIN, "batch"], lines, **kw)
 
 
+MODEL_AVAILABLE = True
+
+
 def model(lines, **kw):
+    if not MODEL_AVAILABLE:
+        return ["MODEL-UNAVAILABLE"] * len(lines)
     return run_batch([DRIVER_BIN], lines, **kw)
 
 
